@@ -183,3 +183,33 @@ def _pinned_symbol_count(version, level, mode, char_count):
     cnt = int(math.ceil(total / cap))
     total += 20 * (cnt - 1)
     return int(math.ceil(total / cap))
+
+
+@classifier('tuple-alpha-1-black-white-opaque')
+def tuple_alpha_1_black_white(d):
+    """C10 (SVG): a colour given as the *tuple* (0, 0, 0, 1) or (255, 255, 255, 1) - integer alpha 1 of 255 - is taken for
+    opaque black / white by _color_is_black / _color_is_white (1 == 1.0); every wrong cell is such a cell, stroked '#000' /
+    '#fff' without opacity, and that very tuple is among the colours of the call."""
+    if d['kind'] != 'cell-colour':
+        return False
+    det, kw = d['detail'], d['case'].get('kw', {})
+    if det.get('kind') != 'svg':
+        return False
+    pairs = det.get('distinct_found_expected')
+    if not pairs or det.get('n_distinct_found_expected') != len(pairs):
+        return False
+    given = [v for v in kw.values() if isinstance(v, (tuple, list)) and len(v) == 4 and not isinstance(v[3], float) and v[3] == 1]
+    given = {tuple(v) for v in given}
+    for found, exp in pairs:
+        if exp is None or tuple(exp) not in given:
+            return False
+        exp = tuple(exp)
+        if exp[:3] == (0, 0, 0):
+            want = '#000'
+        elif exp[:3] == (255, 255, 255):
+            want = '#fff'
+        else:
+            return False
+        if found is None or tuple(found) != ('stroke', want, None):
+            return False
+    return True
